@@ -153,6 +153,10 @@ class Record:
         if not isinstance(other, Record):
             return NotImplemented
 
+        # the packed form only carries the (name, 32-bit hash) identifier, which different descriptors can share
+        if self._desc != other._desc:
+            return False
+
         return self._pack(excluded_fields=IGNORE_FIELDS_FOR_COMPARISON) == other._pack(
             excluded_fields=IGNORE_FIELDS_FOR_COMPARISON
         )
